@@ -93,8 +93,8 @@ func (c *Case) fill(t reflect.Type, variant int, depth int) reflect.Value {
 			if !f.IsExported() {
 				continue
 			}
-			if _, skip := serialTag(f.Tag); skip {
-				continue
+			if _, skip := serialTag(f.Tag); skip && depth > 0 {
+				continue // dropped by encoding/json inside a jsonb document; a column of the row itself is written whatever its json tag
 			}
 			if f.Name == "Valid" && f.Type.Kind() == reflect.Bool {
 				v.Field(i).SetBool(true)
